@@ -115,6 +115,20 @@ def o182(ctx):
     ctx.count(1)
     if kk is None or not tm.has_sym(to_term(kk), "k"):
         ctx.finding(NN + "get_feature_nn_indices", qs[0].node, "the requested number of neighbours must reach the tree query", qs[0].node, mi)
+    else:
+        # ... bounded by the number of candidates only: min(k, |candidate subset|).  The size of the *query* subset has no say (a tomogram
+        # with two query particles and ten candidates still has ten neighbours to report)
+        kt = to_term(kk)
+        sizes = [n for n in tm.walk(kt) if n.op == "call" and n.args[0] in ("nrows", "len")]
+        tree_sp = getattr(trees[0].args[0], "space", None)
+        query_sp = getattr(qs[0].args[1], "space", None)
+        ctx.count(1, {"neighbours requested": tm.show(kt)[:100]})
+        bad_sizes = [n for n in sizes if tree_sp is None or tm.cval(n.args[1]) != tree_sp.id]
+        if bad_sizes or len(sizes) != 1:
+            ctx.finding(NN + "get_feature_nn_indices", qs[0].node, "the number of neighbours per query particle must be min(nn_number, number of candidates "
+                        f"in the tomogram) and nothing else; it is {tm.show(kt)[:100]}" +
+                        (" -- it also depends on the number of query particles" if query_sp is not None and any(tm.cval(n.args[1]) == query_sp.id for n in bad_sizes) else ""),
+                        qs[0].node, mi)
     # appended quantities
     px = sym("pixel_size")
     Pa = [mk("add", sym("a:" + c), sym("a:shift_" + c)) for c in "xyz"]
